@@ -442,6 +442,7 @@ Proof.
       pose proof (inv_impls st log I _ _ X) as A'. congruence.
   - exact I.
   - eapply inv_regs_same; [|exact I]. split; reflexivity.
+  - eapply inv_regs_same; [|exact I]. split; reflexivity.
   - cbn [step]. pose proof (read_frame mro fuel st o h) as F. destruct (read mro sem_fixed fuel st o h) as [st1 r].
     cbn [fst] in *. eapply inv_regs_same; [|exact I]. destruct F as [A [B _]]. split; assumption.
   - eapply inv_regs_same; [|exact I]. split; reflexivity.
